@@ -101,6 +101,15 @@ def discriminator_doc(rng: Rng) -> tuple[str, dict]:
                           "properties": {"owner": {"$ref": "#/definitions/Owner"}}, "definitions": schemas}
 
 
+def discriminator_doc_openapi(rng: Rng) -> dict:
+    """an OpenAPI document (for directories whose files are not all of one type)"""
+    for _ in range(20):
+        ift, doc = discriminator_doc(rng)
+        if ift == "openapi":
+            return doc
+    return {"openapi": "3.0.3", "info": {"title": "t", "version": "1"}, "paths": {}, "components": {"schemas": {"Thing": {"type": "object", "properties": {"n": {"type": "integer"}}}}}}
+
+
 TREE_DIRS = ["a", "b", "zeta", "m/inner", "b/deep", "common", "v1", "v2"]
 TREE_STEMS = ["alpha", "beta", "gamma", "delta", "pets", "users", "order", "epsilon", "eta", "theta"]
 SHARED_PROPS = ["pet", "owner", "address", "item", "meta"]
